@@ -661,6 +661,112 @@ fn mls_cancel_case(r: &mut Rng) -> (String, Cfg) {
 /// followed by a tail with commas, with a wrap column next to the width of the closing-quote line before or after the
 /// re-indentation: the first wrapping and the re-wrap after the re-indentation then disagree on where the tail breaks
 /// (tokens that started a line are joined back, or the other way round).
+/// Two multi-line literals in one logical line, the first misplaced, the second exactly where the formatter puts it
+/// (an edited, previously formatted file): whether the line is re-wrapped after the string pass must not depend on
+/// which of its literals was rewritten last.  The wrap column lies between the widths of the first literal's
+/// closing-quote line before and after its re-indentation.
+fn mls_two_case(r: &mut Rng) -> (String, Cfg) {
+    let mut cfg = Cfg::random(r);
+    cfg.fmt_mls = true;
+    cfg.tab_width = *r.pick(&[2u8, 2, 4]);
+    cfg.cont = *r.pick(&[1u8, 2, 2]);
+    cfg.use_tabs = false;
+    let tail_len = r.range(12, 70);
+    let mut tail = String::from(r.pick_str(&[".Replace(", ".Trim(", " + Concat(", ".Format(["]));
+    let closer = if tail.starts_with(".Format") { "])" } else { ")" };
+    let mut i = 0;
+    while tail.len() < tail_len {
+        if i > 0 {
+            tail.push_str(", ");
+        }
+        tail.push_str(r.pick_str(&["aaaaaaaa", "bbbbbbbb", "cccc", "Another", "F(Argument1, Argument2)", "X", "1"]));
+        i += 1;
+    }
+    tail.push_str(closer);
+    let n_more = r.range(1, 2);
+    let mut more = String::new();
+    for k in 0..n_more {
+        more.push_str(&format!(" + '''\n    more{k}\n    '''"));
+        if r.chance(1, 2) {
+            more.push_str(r.pick_str(&[".Trim", ".ToUpper()", ""]));
+        }
+    }
+    let (pre, post) = match r.range(0, 2) {
+        0 => ("begin\n  X :=", "end;\n"),
+        1 => ("procedure Foo;\nbegin\n  if A then\n  begin\n    Query.SQL.Text :=", "  end;\nend;\n"),
+        _ => ("begin\n  Foo(procedure begin\n  X :=", "end);\nend;\n"),
+    };
+    let src = format!("{pre} '''\n    abc\n      def\n    '''{tail}{more};\n{post}");
+    let mut wide = cfg.clone();
+    wide.wrap_column = 400;
+    let out = std::panic::catch_unwind(|| stages::run_real(&src, &wide, &[]).0).ok().map(|o| String::from_utf8_lossy(&o).to_string()).unwrap_or_default();
+    // the first literal: from the line after the first line ending in ''' to the first line starting with '''
+    let lines: Vec<&str> = out.split('\n').collect();
+    let open = match lines.iter().position(|l| l.trim_end().ends_with("'''")) {
+        Some(p) => p,
+        None => return (src, cfg),
+    };
+    let close = match lines.iter().enumerate().position(|(i, l)| i > open && l.trim_start().starts_with("'''")) {
+        Some(p) => p,
+        None => return (src, cfg),
+    };
+    let new_width = lines[close].len();
+    let delta = r.range(1, 40);
+    let shift_left = r.chance(1, 4);
+    let cur_ind = lines[close].len() - lines[close].trim_start().len();
+    let mut res = String::new();
+    for (i, l) in lines.iter().enumerate() {
+        if i > open && i <= close {
+            if shift_left {
+                let cut = delta.min(cur_ind);
+                res.push_str(&l[cut.min(l.len() - l.trim_start().len())..]);
+            } else {
+                res.push_str(&" ".repeat(delta));
+                res.push_str(l);
+            }
+        } else {
+            res.push_str(l);
+        }
+        if i + 1 < lines.len() {
+            res.push('\n');
+        }
+    }
+    let old_width = if shift_left { new_width.saturating_sub(delta.min(cur_ind)) } else { new_width + delta };
+    let (lo, hi) = if old_width > new_width { (new_width, old_width - 1) } else { (old_width, new_width.saturating_sub(1).max(old_width)) };
+    cfg.wrap_column = if r.chance(3, 4) { r.range(lo, hi.max(lo)) as u32 } else { (lo as i64 + r.range(0, 6) as i64 - 3).max(1) as u32 };
+    (res, cfg)
+}
+
+/// A logical line for which the wrapper has no solution (a call that lost its closing parenthesis swallows the rest of
+/// the routine, line comments included) with non-ASCII text of any length behind it, shifted byte by byte: whatever the
+/// give-up path does with the text of the line (log it, measure it, cut it) happens at every byte offset of a
+/// multi-byte character.
+fn nosol_case(r: &mut Rng) -> (String, Cfg) {
+    let cfg = Cfg::random(r);
+    let ch = *r.pick(&["é", "ß", "こ", "設", "定", "\u{3000}", "😀", "𝔘", "ж"]);
+    let pad = " ".repeat(r.range(0, 4));
+    let n_comments = r.range(0, 6);
+    let mut comments = String::new();
+    for _ in 0..n_comments {
+        let len = r.range(1, 120);
+        let mut c = String::new();
+        for _ in 0..len {
+            c.push_str(if r.chance(4, 5) { ch } else { r.pick_str(&["a", " ", "é", "語"]) });
+        }
+        comments.push_str(&format!("  {} {}\n", r.pick_str(&["//", "///", "  //"]), c));
+    }
+    let ident = if r.chance(1, 3) { format!("Nam{}", ch.repeat(r.range(1, 200))) } else { "AFileName".to_string() };
+    let lit = if r.chance(1, 3) { format!("'{}'", ch.repeat(r.range(1, 300))) } else { "'missing: '".to_string() };
+    let shape = r.range(0, 3);
+    let input = match shape {
+        0 => format!("procedure Load;\nbegin\n  if not FileExists({ident}) then\n    Log({pad}{lit} + {ident}\n  else\n    Exit;\n{comments}  case FMode of\n    0: ;\n    1: Reload;\n  end;\nend;\n"),
+        1 => format!("begin\n  x := ^ {{ {lit}\n b }}\n{pad}T{ident};\n{comments}end;\n"),
+        2 => format!("type\n  X: {{$m 1}} ^T{ident} /// {lit}\n;\n{comments}"),
+        _ => format!("begin\n  Foo[{pad}{lit}, {ident} // c\n{comments}  Bar;\nend.\n"),
+    };
+    (input, cfg)
+}
+
 fn mls_shift_case(r: &mut Rng) -> (String, Cfg) {
     let mut cfg = Cfg::random(r);
     cfg.fmt_mls = true;
@@ -1057,7 +1163,10 @@ fn cmd_emit(a: &Args) {
     let mut cases: Vec<Case> = vec![];
     let only = a.get("only_corpus", "");
     for (input, cfg, line_wf) in corpus_inputs(&stream, &only) {
-        let cursors: Vec<u32> = a.get("replay_cursors", "").split(',').filter_map(|x| x.trim().parse().ok()).collect();
+        let mut cursors: Vec<u32> = a.get("replay_cursors", "").split(',').filter_map(|x| x.trim().parse().ok()).collect();
+        if cursors.is_empty() && a.get("cursors_all", "0") == "1" && input.len() <= 160 {
+            cursors = (0..=input.len() + 2).filter(|p| *p >= input.len() || input.is_char_boundary(*p)).map(|p| p as u32).collect();
+        }
         let wf = line_wf || a.get("replay_well_formed", "0") == "1";
         cases.push(Case { stream: stream.clone(), family: a.get("replay_family", "corpus"), input, cfg, cursors, oracles: oracle_list.clone(), well_formed: wf, w2: a.num("replay_w2", 80) as u32, input2: None, marks: vec![], texts: vec![] });
     }
@@ -1076,6 +1185,14 @@ fn cmd_emit(a: &Args) {
             for _ in 0..per {
                 let (input, cfg) = mls_cancel_case(&mut r);
                 cases.push(Case { stream: stream.clone(), family: fam.clone(), input, cfg, cursors: vec![], oracles: oracle_list.clone(), well_formed: true, w2: 200, input2: None, marks: vec![], texts: vec![] });
+            }
+            continue;
+        }
+        if fam == "mlstwo" || fam == "nosol" {
+            let mut r = rng.fork();
+            for _ in 0..per {
+                let (input, cfg) = if fam == "mlstwo" { mls_two_case(&mut r) } else { nosol_case(&mut r) };
+                cases.push(Case { stream: stream.clone(), family: fam.clone(), input, cfg, cursors: vec![], oracles: oracle_list.clone(), well_formed: fam == "mlstwo", w2: 200, input2: None, marks: vec![], texts: vec![] });
             }
             continue;
         }
